@@ -180,8 +180,15 @@ impl CalibrationExpansion {
     /// This is to be used when the given index is removed from the target program
     /// in the process of calibration expansion (for example, a `DECLARE`).
     pub(crate) fn remove_target_index(&mut self, target_index: InstructionIndex) {
-        // Adjust the start of the range if the target index is before the range
-        if self.range.start >= target_index {
+        // The position of the removed instruction relative to this expansion, if it is one of the
+        // instructions this expansion produced (computed before the range is adjusted).
+        let target_within_expansion = self
+            .range
+            .contains(&target_index)
+            .then(|| InstructionIndex(target_index.0 - self.range.start.0));
+
+        // Shift the start of the range if the target index is before the range
+        if self.range.start > target_index {
             self.range.start = self.range.start.map(|v| v.saturating_sub(1));
         }
 
@@ -193,14 +200,14 @@ impl CalibrationExpansion {
         // Then walk through all entries expanded for this calibration and remove the
         // index as well. This is needed when a recursively-expanded instruction contains
         // an instruction which is excised from the overall calibration.
-        if let Some(target_within_expansion) = target_index.0.checked_sub(self.range.start.0) {
+        if let Some(target_within_expansion) = target_within_expansion {
             self.expansions.entries.retain_mut(
                 |entry: &mut SourceMapEntry<
                     InstructionIndex,
                     ExpansionResult<CalibrationExpansion>,
                 >| {
                     if let ExpansionResult::Rewritten(ref mut expansion) = entry.target_location {
-                        expansion.remove_target_index(InstructionIndex(target_within_expansion));
+                        expansion.remove_target_index(target_within_expansion);
                         !expansion.range.is_empty()
                     } else {
                         true
